@@ -152,15 +152,12 @@ impl Selector {
             ctx.s
                 .s
                 .iter()
-                .flat_map(|s| {
-                    Selector {
-                        rel_of: s.rel_of.clone(),
-                        compound: CompoundSelector::default(),
-                    }
-                    .unify(Selector {
-                        rel_of: self.rel_of.clone(),
-                        compound: s.compound.append(&self.compound).unwrap(),
-                    })
+                .map(|s| Selector {
+                    // Replacing `&` is a substitution, not a
+                    // unification: `.a { &:host(.z) {} }` is
+                    // `.a:host(.z)`, not nothing.
+                    rel_of: s.rel_of.clone(),
+                    compound: s.compound.append(&self.compound).unwrap(),
                 })
                 .collect()
         } else {
